@@ -697,3 +697,9 @@ mod test {
         assert_eq!(calculate_heuristic_factor(WHITE), 1);
     }
 }
+
+#[cfg(inkayaku_verif)]
+pub fn verif_heuristic_factor(color: ColorBits) -> i32 { calculate_heuristic_factor(color) }
+
+#[cfg(inkayaku_verif)]
+pub fn verif_default_contempt() -> i32 { EngineOptions::default().contempt_factor }
